@@ -572,7 +572,7 @@ def run(ctx):
     ctx.floor("C04.R6", 3, "amount reads in ReadStream::{wait_for_read,eof}, WriteStream::wait_for_write")
     ctx.floor("C04.R1", 3, "liveness reads in read-end methods that also read the amount: ReadStream::{wait_for_read,eof}, NCReadStream::{wait,eof}")
     ctx.floor("C04.R2", 10, "verdict definitions in wait/closed/eof of the four stream ends")
-    ctx.floor("C04.R3", 3, "timed condvar waits: Buffer::wait_for_read, Buffer::wait_for_write, NCReadStream::wait")
+    ctx.floor("C04.R3", 2, "timed condvar waits: the copy-stream buffer (2 sites today, 1 when they share a helper) and NCReadStream::wait")
     ctx.floor("C04.R4", 30, "derive-generated BlockEOF::eof bodies with inputs")
     ctx.explain("C04: decides, from MIR, the ORDER of the peer-liveness read (Arc::strong_count) and the last "
                 "buffered-amount read on every path to a non-false end-of-stream verdict in the read ends (R1; a liveness "
